@@ -65,6 +65,7 @@ type Cfg struct {
 	WdRel      string `json:"working_directory,omitempty"`  // working directory below the case root (default "wd"), e.g. one with blanks in its name
 	SlowErr    bool   `json:"slow_stderr_reader,omitempty"` // the subject's stderr is a pipe whose reader takes 128 kB every 10 ms
 	StraceKill string `json:"strace_kill,omitempty"`        // "<syscalls>:<n>": the subject runs under strace, which kills whichever thread is about to make its n-th call of one of these syscalls
+	FSize      int    `json:"file_size_limit,omitempty"`    // the subject runs with RLIMIT_FSIZE = <bytes> (SIGXFSZ ignored: writes beyond it fail with EFBIG)
 	NoFile     int    `json:"open_files_limit,omitempty"`   // the subject runs under "ulimit -n <limit>"
 	Debug      bool   `json:"debug_log,omitempty"`          // the library logs at its DEBUG level (InitLogDebug before the workflow is made)
 	Quiet      bool   `json:"quiet_log,omitempty"`          // the library logs errors only (its logger's mutex is one more synchronisation the race detector sees)
@@ -91,6 +92,9 @@ func (c Cfg) env() map[string]string {
 	}
 	if c.Debug {
 		e["VERIF_DEBUGLOG"] = "1"
+	}
+	if c.FSize > 0 {
+		e["VERIF_FSIZE"] = strconv.Itoa(c.FSize)
 	}
 	if c.NoHooks {
 		e["VERIF_EVLOG"] = "" // passive hooks: no event log, no monitor mutex between the goroutines
